@@ -40,8 +40,16 @@ type Engine struct {
 	assumeSeen map[string]bool
 	FunctionsRun []string
 	TrustedFuncs []string
+	AssumedClauses map[string]string // "pkg.Func/ensures(label)" -> reason: postconditions trusted while the body is verified
 	Called map[string]bool // contracts relied upon ("pkg.Recv.Func"): callees of verified bodies, implementations behind interface contracts
 	ImmutablePrefixes []string // heap-array name prefixes ("fld$pkg.Type.") of immutable struct types
+}
+
+func (e *Engine) noteAssumedClause(name, reason string) {
+	if e.AssumedClauses == nil {
+		e.AssumedClauses = map[string]string{}
+	}
+	e.AssumedClauses[name] = reason
 }
 
 // immutableHeap: the named heap array holds a field of a struct type declared immutable: its entries for allocated
